@@ -364,6 +364,9 @@ func rulesC09(c *Ctx) {
 	promoteC09(c)
 	dispatchC09(c)
 	bindKindsC09(c)
+	bindExactC09(c)
+	c.Rule("C09.pure", "Reduce and everything it calls in the package read no mutable package-level state: the fold of an expression depends on the expression and the valuer only (a memo of parsed time strings, say, would answer with the instant computed for another zone)")
+	pureRule(c, "C09.pure", "Reduce", "reduce")
 	copyLiteralRule(c, "C09.copylit", func(name string) bool { return strings.HasPrefix(name, "reduce") || name == "Reduce" })
 	zoneC09(c)
 }
@@ -560,6 +563,12 @@ func shortcutsC09(c *Ctx, tt *tokenTable, rule string) {
 					}
 					if ld, ok := res.(*ssa.UnOp); ok {
 						if fa, ok := ld.X.(*ssa.FieldAddr); ok {
+							// the operand as it stood before the recursive fold
+							if _, fld, ok := fieldRef(ld); ok && (fld == "LHS" || fld == "RHS") && p.TypeStr(fa.X.Type()) == "*BinaryExpr" {
+								if _, isParam := fa.X.(*ssa.Parameter); isParam {
+									return "the unreduced " + fld + " (folds inside that operand are dropped)"
+								}
+							}
 							if b := base(fa.X, 0); b != "" {
 								return "part of " + b
 							}
@@ -898,4 +907,68 @@ func bindKindsC09(c *Ctx) {
 			c.Bad("C09.bindkinds", key, apos, "the evaluator computes with "+k+" values, but Reduce substitutes a variable bound to one by nil: Reduce(x = 5) with x bound to uint64(5) folds to false")
 		}
 	}
+}
+
+// bindExactC09: each literal asLiteral builds holds the bound value itself —
+// the type-asserted parameter, unconverted — so the literal's kind is the kind
+// the evaluator would compute with for the same binding.
+func bindExactC09(c *Ctx) {
+	p := c.P
+	f := p.SSAFunc(p.Func("asLiteral"))
+	if f == nil || len(f.Params) != 1 {
+		c.Unk("C09.bindkinds", "asLiteral: literal kinds", 0, "anchor not found")
+		return
+	}
+	fromParam := func(v ssa.Value) (types.Type, bool) {
+		if ex, ok := v.(*ssa.Extract); ok && ex.Index == 0 {
+			v = ex.Tuple
+		}
+		ta, ok := v.(*ssa.TypeAssert)
+		if !ok || ta.X != ssa.Value(f.Params[0]) {
+			return nil, false
+		}
+		return ta.AssertedType, true
+	}
+	n := 0
+	for _, b := range f.Blocks {
+		ret, ok := b.Instrs[len(b.Instrs)-1].(*ssa.Return)
+		if !ok || len(ret.Results) != 1 {
+			continue
+		}
+		mi, ok := ret.Results[0].(*ssa.MakeInterface)
+		if !ok {
+			continue
+		}
+		a, ok := mi.X.(*ssa.Alloc)
+		if !ok {
+			continue
+		}
+		lit := p.TypeStr(a.Type())
+		for _, ref := range *a.Referrers() {
+			fa, ok := ref.(*ssa.FieldAddr)
+			if !ok || fieldNameOf(fa) != "Val" {
+				continue
+			}
+			for _, r2 := range *fa.Referrers() {
+				st, ok := r2.(*ssa.Store)
+				if !ok || st.Addr != ssa.Value(fa) {
+					continue
+				}
+				n++
+				key := fmt.Sprintf("asLiteral: %s.Val #%d", lit, n)
+				if t, ok := fromParam(st.Val); ok {
+					c.OK("C09.bindkinds", key, st.Pos(), "holds the bound "+p.TypeStr(t)+" as it is")
+					continue
+				}
+				if cv, ok := st.Val.(*ssa.Convert); ok {
+					if t, ok := fromParam(cv.X); ok {
+						c.Bad("C09.bindkinds", key, st.Pos(), "a bound "+p.TypeStr(t)+" is substituted as a "+lit+" holding a converted value: the fold then computes with another kind than the evaluator does for the same binding (unsigned division, overflow and comparison rules differ)")
+						continue
+					}
+				}
+				c.Unk("C09.bindkinds", key, st.Pos(), "the stored value is not the type-asserted parameter")
+			}
+		}
+	}
+	c.Floor("C09.bindkinds", n, 5)
 }
